@@ -222,8 +222,9 @@ def render(sc):
             decls.append("function* a%d() { %s }" % (k, code))
         else:
             decls.append("function a%d() { %s }" % (k, code))
+    decls.append('function epi() { print("end"); return 9; }')
     src = "\n".join(decls + [act_code(sc, 1)])
-    return [{"kind": "eval", "src": src}, {"kind": "jobs"}, {"kind": "eval", "src": 'print("end"); 9;'}]
+    return [{"kind": "eval", "src": src}, {"kind": "jobs"}, {"kind": "call", "fn": "epi", "args": []}]
 
 
 def hjs_cfg(sc):
@@ -332,23 +333,35 @@ def tagkind(line):
     return line.split(":")[-1]
 
 
-BOUNDARY = ("asyncsync", "asynccont", "asyncgen", "closethrow", "forofclosethrow", "fromcb", "iterevery")
+ASYNC_FN = ("asyncsync", "asynccont")
+NATIVE_CLOSERS = ("fromcb", "iterevery")
 
 
-def via_of(f0):
-    """the route of the dead chain that has to pass the limit on to the host: the nearest boundary route below the
-    firing activation, else the await continuation that owns the chain, else the plain owner"""
+def via_of(f0, cls, raw):
+    """the place that has to pass the limit on to the host and, judging by the symptom, did not: an async generator
+    resume (process abort), the promise-capability creation of an async function (engine panic), a native iterator
+    close (return() printed / catch entered), the await continuation that owns the chain, else the plain owner"""
     if f0 is None:
         return "-"
     ch = f0["chain"]
-    for r in ch:                                   # a native iterator close on the chain sees the limit first
-        if r in ("closethrow", "forofclosethrow"):
-            return r
-    for i in range(len(ch) - 1, -1, -1):
-        if ch[i] in BOUNDARY:
-            return "await-continuation" if (i == 0 and f0["s"] == 2 and f0["cont"]) else ch[i]
-    if f0["s"] == 2 and f0["cont"]:
+    top_down = list(reversed(ch))
+    cont = f0["s"] == 2 and f0["cont"]
+    if cls == "rust-panic" and "asyncgen" in ch:
+        return "asyncgen"
+    if cls == "enginepanic":
+        for r in top_down:
+            if r in ASYNC_FN:
+                return r
+    if cls == "chain-continues" and raw.startswith("extra:ret"):
+        for r in top_down:
+            if r in NATIVE_CLOSERS:
+                return r
+    if cls == "chain-continues" and "closethrow" in ch:
+        return "closethrow"
+    if cls in ("chain-continues", "not-reported") and cont:
         return "await-continuation"
+    if cls == "not-reported" and "closethrow" in ch:
+        return "closethrow"
     return owner_of(f0)
 
 
@@ -390,7 +403,7 @@ def classify(g, ref, res):
                 raw = "differs:%s,want:%s" % (tagkind(go[i]), tagkind(wo[i]))
                 cls = "different-output"
             break
-    sig = "via=%s limit=%s symptom=%s" % (via_of(f0), f0["kind"].split(":")[1] if f0 else "none", cls)
+    sig = "via=%s limit=%s symptom=%s" % (via_of(f0, cls, raw), f0["kind"].split(":")[1] if f0 else "none", cls)
     return sig, "%s chain=%s owner=%s" % (raw, collapse(f0["chain"]) if f0 else "-", owner_of(f0))
 
 
@@ -415,7 +428,7 @@ def owner_of(f0):
     if f0["s"] == 1:
         return "script"
     if f0["s"] == 3:
-        return "epilogue"
+        return "call"
     return "continuation" if f0["cont"] else "job"
 
 
@@ -445,8 +458,8 @@ def run(tier, replay=None):
     if os.environ.get("C08_NOBUILD"):                # development only
         bindir = os.path.join(vlib.HARNESS, "target", "debug")
     else:
-        bindir = vlib.build_harness(["hjs"])
-    hjs = os.path.join(bindir, "hjs")
+        bindir = vlib.build_harness(["hlim"])
+    hjs = os.path.join(bindir, "hlim")      # hjs with batched worker threads (same protocol)
     corrupt = os.environ.get("C08_CORRUPT")          # binding demonstration: corrupt one expectation
     states = trans = 0
     n_sc = n_out = n_nontriv = n_fired = n_unlimited = 0
@@ -563,7 +576,7 @@ def run(tier, replay=None):
         want_events = set(EVK.values())
         if events_seen != want_events:
             raise vlib.ToolError(f"vacuity guard: print kinds never observed in a conforming run: {sorted(want_events - events_seen)}")
-        if owners_seen != {"script", "job", "continuation", "epilogue"}:
+        if owners_seen != {"script", "job", "continuation", "call"}:
             raise vlib.ToolError(f"vacuity guard: limit never fired in a chain owned by {sorted({'script', 'job', 'continuation', 'epilogue'} - owners_seen)}")
         if len(kinds_seen) != 3:
             raise vlib.ToolError("vacuity guard: not all three limit kinds fired in the model")
